@@ -316,6 +316,16 @@ func genC14(r *rand.Rand, w *W) [][]string {
 		}
 		w.Count("literal-fanout")
 	}
+	if fan && icDone {
+		// kinds that compete at one position where the sort adjustments (leaf, end point) could tie them: an
+		// interceptor domain that ends the host and has no children, added AFTER two regexp domains that share
+		// an inner node; the interceptor must still be tried first.  No random draw, no pool entry.
+		ops = append(ops, []string{"hicpt", "anyz", "any"},
+			[]string{"hadd", "api.{ver:v\\d+}.kind.example.com"}, []string{"hadd", "api.{ver:v\\d+}.kind.example.org"},
+			[]string{"hadd", "api.{rest:anyz}"}, []string{"hdump"},
+			[]string{"hmatch", "api.v2.kind.example.com"}, []string{"hmatch", "API.v2.kind.Example.org:443"}, []string{"hmatch", "api.x"})
+		w.Count("shape-interceptor-after-regexp-siblings")
+	}
 	probe := func(simple bool) {
 		if len(pool) == 0 {
 			return
